@@ -127,12 +127,61 @@ func (e *lockupEnv) keeperTail(steps int, lastID *uint64, ms lockuptypes.MsgServ
 	e.synthCause = map[string]string{}
 	e.pendingCause = ""
 	o.Count("tail.histories")
-	ops := []string{"synthcreate", "synthdelete", "addtolock", "slash", "keeperforceunlock", "beginforceunlock", "endblock", "rebuild", "refused", "lock"}
-	weights := []int{22, 10, 8, 12, 8, 12, 10, 4, 8, 6}
+	ops := []string{"synthcreate", "synthdelete", "addtolock", "slash", "keeperforceunlock", "beginforceunlock", "endblock", "rebuild", "refused", "lock", "exportimport"}
+	weights := []int{22, 10, 8, 12, 8, 12, 10, 4, 8, 6, 9}
+	// the history's "unbonding time": x/superfluid gives EVERY synthetic lock the staking unbonding time, whatever the
+	// duration of the lock underneath; one of the two shortest durations of the history plays that part
+	U := e.durs[r.Intn(min(2, len(e.durs)))]
+	suffixes := []string{"/superbonding/v1", "/superbonding/v2", "/superunbonding/v1"}
+	// directed opener of about every second tail: a CLUSTER of 2..4 synthetic locks of ONE synthetic denomination, all
+	// lasting U, on locks of whatever durations (created when there are too few): the shape two delegators of one
+	// validator produce.  One bucket of that denomination's accumulation tree is then a sum over several locks.
+	clusterLeft, clusterDenom, clusterSD := 0, "", ""
+	if r.Intn(100) < 60 {
+		clusterLeft = 2 + r.Intn(3)
+		elig := map[string]int{}
+		for _, l := range e.shadow {
+			if l.end == 0 {
+				elig[l.denom]++
+			}
+		}
+		for _, dn := range e.denoms {
+			if elig[dn] > elig[clusterDenom] || clusterDenom == "" && !isCLDenom(dn) {
+				clusterDenom = dn
+			}
+		}
+		if r.Intn(3) == 0 || clusterDenom == "" {
+			var base []string
+			for _, dn := range e.denoms {
+				if !isCLDenom(dn) {
+					base = append(base, dn)
+				}
+			}
+			clusterDenom = base[r.Intn(len(base))]
+		}
+		clusterSD = clusterDenom + suffixes[r.Intn(3)]
+		steps += clusterLeft + 2
+		o.Count("tail.cluster.histories")
+	}
+	exported := false
 	for i := 0; i < steps; i++ {
 		e.advance()
 		now := e.now
 		op := pickWeighted(r, ops, weights)
+		forcedLockDenom := ""
+		if clusterLeft > 0 {
+			op = "synthcreate"
+			if e.randLock(func(l *shLock) bool { return e.synth[l.id] == nil && l.end == 0 && l.denom == clusterDenom }) == nil {
+				if isCLDenom(clusterDenom) {
+					clusterLeft = 0
+					op = pickWeighted(r, ops, weights)
+				} else {
+					op, forcedLockDenom = "lock", clusterDenom
+				}
+			}
+		} else if i == steps-1 && !exported && len(e.synth) > 0 {
+			op = "exportimport" // every tail that still has synthetic locks ends with an export/import point
+		}
 		before := map[string]int64{}
 		for _, nm := range e.names {
 			for _, d := range e.denoms {
@@ -149,19 +198,38 @@ func (e *lockupEnv) keeperTail(steps int, lastID *uint64, ms lockuptypes.MsgServ
 		}
 		switch op {
 		case "synthcreate":
-			l := noSynth(func(l *shLock) bool { return l.end == 0 })
+			inCluster := clusterLeft > 0
+			l := noSynth(func(l *shLock) bool { return l.end == 0 && (!inCluster || l.denom == clusterDenom) })
 			if l == nil {
 				break
 			}
 			id := l.id
-			if r.Intn(12) == 0 { // a lock that already has one
+			if !inCluster && r.Intn(12) == 0 { // a lock that already has one
 				if l2 := withSynth(func(*shLock, *shSynth) bool { return true }); l2 != nil {
 					l, id = l2, l2.id
 				}
 			}
-			sd := l.denom + []string{"/superbonding/v1", "/superbonding/v2", "/superunbonding/v1"}[r.Intn(3)]
+			sd := l.denom + suffixes[r.Intn(3)]
+			if !inCluster && r.Intn(2) == 0 { // join a synthetic denomination of this denomination that is already in use
+				var used []string
+				for x := range e.synthDenoms {
+					if strings.HasPrefix(x, l.denom+"/super") {
+						used = append(used, x)
+					}
+				}
+				sort.Strings(used)
+				if len(used) > 0 {
+					sd = used[r.Intn(len(used))]
+				}
+			}
 			u := l.dur
-			if r.Intn(5) < 2 { // a shorter synthetic duration (superfluid: the staking unbonding time <= lock duration)
+			if inCluster {
+				sd, u = clusterSD, U
+				clusterLeft--
+				o.Count("tail.cluster.synthcreate")
+			} else if r.Intn(5) < 2 {
+				u = U
+			} else if r.Intn(5) < 2 { // a shorter synthetic duration (superfluid: the staking unbonding time <= lock duration)
 				var shorter []int64
 				for d := range e.durEver {
 					if d > 0 && d < l.dur {
@@ -176,7 +244,9 @@ func (e *lockupEnv) keeperTail(steps int, lastID *uint64, ms lockuptypes.MsgServ
 				}
 			}
 			unl := r.Intn(2) == 0
-			if r.Intn(15) == 0 {
+			if inCluster {
+				unl = strings.Contains(sd, "/superunbonding") && u <= l.dur
+			} else if r.Intn(15) == 0 {
 				u = l.dur + 1 // refused when unlocking
 			}
 			line = fmt.Sprintf("synthcreate %d %d %s %d %v", now, id, sd, u, unl)
@@ -405,6 +475,29 @@ func (e *lockupEnv) keeperTail(steps int, lastID *uint64, ms lockuptypes.MsgServ
 					e.synthCause[sd] = ""
 				}
 			}
+		case "exportimport": // REAL ExportGenesis -> store wiped -> REAL InitGenesis with synthetic locks alive (oracle-only)
+			line = fmt.Sprintf("exportimport %d", now)
+			e.hist = append(e.hist, "[keeper] "+line)
+			if !e.exportImportCore(false) {
+				break
+			}
+			res = "ok"
+			exported = true
+			o.Count(fmt.Sprintf("tail.exportimport.live-synthetic-locks.%s", bucketOf(len(e.synth), 1, 2, 4, 8)))
+			// InitGenesis writes every synthetic tree anew from the live synthetic locks (what `rebuild` does for one denomination)
+			for sd := range e.synthDenoms {
+				e.synthCoded[sd] = map[int64]int64{}
+				for id, sy := range e.synth {
+					if sy.denom == sd {
+						e.codedAdd(sd, sy.dur, e.shadow[id].amt)
+					}
+				}
+				if e.synthCause[sd] != "" {
+					o.Count("tail.exportimport.drifted-synthetic-accumulation-rebuilt")
+				}
+				e.synthCause[sd] = ""
+			}
+			e.hist = e.hist[:len(e.hist)-1]
 		case "refused": // messages that must fail while a synthetic lock exists
 			l := withSynth(func(*shLock, *shSynth) bool { return true })
 			if l == nil {
@@ -448,6 +541,9 @@ func (e *lockupEnv) keeperTail(steps int, lastID *uint64, ms lockuptypes.MsgServ
 				}
 			}
 			dn := base[r.Intn(len(base))]
+			if forcedLockDenom != "" {
+				dn = forcedLockDenom
+			}
 			dur := e.durs[r.Intn(len(e.durs))]
 			amt := int64(1 + r.Intn(60))
 			line = fmt.Sprintf("lock %d %s %d %s", now, owner, dur, e.coin(dn, amt))
